@@ -278,7 +278,7 @@ def rCode (c : Cfg) : Nat → Nat → Bool → M V
       rRefInsert (.code [("graal", .tru), ("co_code", code)]) slot
     else do
     let consts ← rObject c fuel (depth + 1) bfs
-    let names ← rObject c fuel (depth + 1) bfs
+    let names ← rObject c fuel (depth + 1) false          -- names are text in every Python 3 (PyPy 3.2 writes them as 's')
     if ge 3 11 then do
       let lpn ← rObject c fuel (depth + 1) bfs
       let lpk ← rObject c fuel (depth + 1) bfs
@@ -306,10 +306,10 @@ def rCode (c : Cfg) : Nat → Nat → Bool → M V
         ("co_firstlineno", .int firstlineno), ("co_linetable", linetable), ("co_exceptiontable", exctable)]) slot
     else do
       let varnames ← (if ge 1 3 then rObject c fuel (depth + 1) false else pure (.tuple []))
-      let freevars ← (if ge 2 1 then rObject c fuel (depth + 1) bfs else pure (V.tuple []))
-      let cellvars ← (if ge 2 1 then rObject c fuel (depth + 1) bfs else pure (V.tuple []))
-      let filename ← rObject c fuel (depth + 1) bfs
-      let name ← rObject c fuel (depth + 1) bfs
+      let freevars ← (if ge 2 1 then rObject c fuel (depth + 1) false else pure (V.tuple []))
+      let cellvars ← (if ge 2 1 then rObject c fuel (depth + 1) false else pure (V.tuple []))
+      let filename ← rObject c fuel (depth + 1) false
+      let name ← rObject c fuel (depth + 1) false
       let firstlineno ← firstM c
       let lnotab ← (if ge 1 5 then rObject c fuel (depth + 1) true else pure (V.bytes []))
       rRefInsert (.code [("co_argcount", .int argcount), ("co_posonlyargcount", posonly), ("co_kwonlyargcount", .int kwonly),
